@@ -63,7 +63,10 @@ coap_cache_ignore_options_lkd(coap_context_t *ctx,
   coap_lock_check_locked(ctx);
   if (ctx->cache_ignore_options) {
     coap_free_type(COAP_STRING, ctx->cache_ignore_options);
+    ctx->cache_ignore_options = NULL;
   }
+  /* the old list is gone whatever happens next */
+  ctx->cache_ignore_count = 0;
   if (count) {
     assert(options);
     ctx->cache_ignore_options = coap_malloc_type(COAP_STRING, count * sizeof(options[0]));
